@@ -54,3 +54,63 @@ def mk_read(h, name, tid, pos, seq, reverse=False, sample='c1', umi='AAA', cigar
     for k, v in (tags or {}).items():
         a.set_tag(k, v)
     return a
+
+
+import re as _re
+_CIG = _re.compile(r'(\d+)([MIDNSHP=X])')
+
+
+def cigar_ops(cigar):
+    return [(op, int(n)) for n, op in _CIG.findall(cigar)]
+
+
+def md_tag(ref, pos, seq, cigar):
+    """MD string of a read (query seq in reference orientation) aligned at pos to the reference string ref."""
+    md = []
+    run = 0
+    q = 0
+    r = pos
+    for op, n in cigar_ops(cigar):
+        if op in 'M=X':
+            for i in range(n):
+                rb = ref[r + i].upper()
+                if seq[q + i].upper() == rb:
+                    run += 1
+                else:
+                    md.append(str(run))
+                    md.append(rb)
+                    run = 0
+            q += n
+            r += n
+        elif op == 'I' or op == 'S':
+            q += n
+        elif op == 'D':
+            md.append(str(run))
+            md.append('^' + ref[r:r + n].upper())
+            run = 0
+            r += n
+        elif op == 'N':
+            r += n
+    md.append(str(run))
+    return ''.join(md)
+
+
+def aligned_pairs(pos, cigar):
+    """[(query index, reference position)] of aligned (M/=/X) bases; independent of pysam."""
+    out = []
+    q = 0
+    r = pos
+    for op, n in cigar_ops(cigar):
+        if op in 'M=X':
+            out.extend((q + i, r + i) for i in range(n))
+            q += n
+            r += n
+        elif op in 'IS':
+            q += n
+        elif op in 'DN':
+            r += n
+    return out
+
+
+def ref_len(cigar):
+    return sum(n for op, n in cigar_ops(cigar) if op in 'M=XDN')
